@@ -48,6 +48,11 @@ type RoundSpec struct {
 	// BindCtx (UseBind): "bg" - Bind is given context.Background(), only DoListen
 	// the round's context: the connections live under the context of the serving call
 	BindCtx string `json:"bind_ctx,omitempty"`
+	// Special: "held" - a foreign listener holds the address while this round
+	// tries to bind it (the bind fails in the operating system; the next round
+	// must work); "bindonly" - Bind, then Shutdown, and no serving call at all
+	// (nothing ever tears the round down; the next round must work all the same)
+	Special string `json:"special,omitempty"`
 }
 
 // CtlOp is one controller step.
@@ -94,6 +99,19 @@ func (s *LifeScenario) Setup(k *sim.Kernel) {
 			sim.Rec("round.start", sp(r))
 			var err error
 			to := time.Duration(rd.TimeoutNs)
+			if rd.Special == "held" {
+				sim.Rec("hold.request", sp(r))
+				sim.Await(sim.Cond{Kind: sim.CondLogged, S1: "hold.ready", N: 1})
+			}
+			if rd.Special == "bindonly" {
+				err = svc.Bind(s.ctxs[r], s.Service.Address)
+				sim.Rec("bind.return", mustJSON(roundRec{r, describeErr(err)}))
+				sim.Rec("shutdown.call", sp(r))
+				serr := svc.Shutdown()
+				sim.Rec("shutdown.return", describeErr(serr))
+				sim.Rec("serve.return", mustJSON(roundRec{r, "skipped"}))
+				continue
+			}
 			if rd.UseBind {
 				bctx := s.ctxs[r]
 				if rd.BindCtx == "bg" {
@@ -108,9 +126,28 @@ func (s *LifeScenario) Setup(k *sim.Kernel) {
 				err = svc.Listen(s.ctxs[r], s.Service.Address, to)
 			}
 			sim.Rec("serve.return", mustJSON(roundRec{r, describeErr(err)}))
+			if rd.Special == "held" {
+				// the address is free again before the next round
+				sim.Await(sim.Cond{Kind: sim.CondLogged, S1: "hold.released", N: 1})
+			}
 		}
 		sim.Rec("serve.done", "")
 	})
+	for _, rd := range s.Rounds {
+		if rd.Special == "held" {
+			k.Spawn("holder", func() {
+				sim.Await(sim.Cond{Kind: sim.CondLogged, S1: "hold.request", N: 1})
+				foreign, err := sim.Listen(network, addr)
+				sim.Rec("hold.ready", describeErr(err))
+				sim.Await(sim.Cond{Kind: sim.CondLogged, S1: "serve.return", N: 1})
+				if foreign != nil {
+					foreign.Close()
+				}
+				sim.Rec("hold.released", "")
+			})
+			break
+		}
+	}
 	for ci, ops := range s.Ctl {
 		ops := ops
 		k.Spawn(sf("ctl%d", ci), func() {
@@ -433,6 +470,19 @@ func (s *LifeScenario) Check(k *sim.Kernel) []sim.Violation {
 		l := rd.lis
 		if !rd.returned && polluted != ^uint64(0) || rd.returned && rd.retSeq > polluted {
 			break
+		}
+		// ---- special rounds
+		if spec.Special == "held" {
+			if l != nil {
+				out = append(out, vio("second-bind", "bind-of-held-endpoint-succeeded", "round %d bound %s although a foreign listener held it", rd.idx, s.Service.Address))
+			}
+			continue
+		}
+		if spec.Special == "bindonly" {
+			if l != nil && rd.returned && (!l.Closed || l.CloseSeq > rd.retSeq) {
+				out = append(out, vio("endpoint-released", "listener-open-after-return shutdown", "round %d: Bind, then Shutdown without a serving call: listener L%d is still open", rd.idx, l.ID))
+			}
+			continue
 		}
 		// ---- re-bind: the address is free again after the previous round returned
 		if l == nil {
@@ -991,6 +1041,26 @@ func genC14(seed uint64, tier string) Scenario {
 		// triggered by the first one) has settled before the client goes away
 		cs.QuietPoints = 3
 		s.Clients = append(s.Clients, cs)
+	}
+	if !s.Cancels && !second && g.Pct(6) {
+		// a round that never gets as far as serving - the address is held by somebody
+		// else, or Shutdown comes after Bind and no serving call follows - and then
+		// an ordinary one: the service object is as good as new
+		s.Rounds = []RoundSpec{{UseBind: g.Pct(50), Special: g.Pick("held", "bindonly")}, {UseBind: g.Pct(50)}}
+		if s.Rounds[0].Special == "bindonly" {
+			s.Rounds[0].UseBind = true
+		}
+		s.Ctl = [][]CtlOp{nil}
+		if g.Pct(60) {
+			s.Ctl = [][]CtlOp{{{Wait: "ev:round.start:2,acceptblocked," + genShutdownTrigger(g), Op: "shutdown"}}}
+		}
+		s.Clients = nil
+		for c, n := 0, 1+g.IntN(2); c < n; c++ {
+			cs := genLifeClient(g, s, &cid, true)
+			cs.Wait = "ev:round.start:2,acceptblocked"
+			s.Clients = append(s.Clients, cs)
+		}
+		return s
 	}
 	if !s.Cancels && !second && g.Pct(12) {
 		// accounting across rounds: a Shutdown that finds a connection open, then a
